@@ -105,6 +105,10 @@ type WriterScript struct {
 	Mode   string `json:"mode"`    // "transient" | "permanent"
 	// the failing write accepts the first half of its bytes before reporting the error (io.Writer allows n > 0 with err != nil)
 	Partial bool `json:"partial,omitempty"`
+	// the error the failing write returns: "" = a private error value, "eof" = io.EOF itself, "ueof" = io.ErrUnexpectedEOF
+	ErrKind string `json:"err_kind,omitempty"`
+	// the destination also has a Flush() error method (which succeeds)
+	Flusher bool `json:"flusher,omitempty"`
 }
 
 type faultWriter struct {
@@ -122,13 +126,32 @@ func (w *faultWriter) write(p []byte) (int, error) {
 	}
 	if w.s.FailAt != 0 && (w.calls == w.s.FailAt || (w.s.Mode == "permanent" && w.calls > w.s.FailAt)) {
 		w.failed = true
+		err := errInjectedWrite
+		switch w.s.ErrKind {
+		case "eof":
+			err = io.EOF
+		case "ueof":
+			err = io.ErrUnexpectedEOF
+		}
 		if w.s.Partial && len(p) >= 2 {
 			n, _ := w.accepted.Write(p[:len(p)/2])
-			return n, errInjectedWrite
+			return n, err
 		}
-		return 0, errInjectedWrite
+		return 0, err
 	}
 	return w.accepted.Write(p)
+}
+
+// flushWriter: a destination with a Flush method that always succeeds (a failed write must still be reported, and nothing may be
+// done to the destination after it)
+type flushWriter struct{ w *faultWriter }
+
+func (p flushWriter) Write(b []byte) (int, error) { return p.w.write(b) }
+func (p flushWriter) Flush() error {
+	if p.w.failed {
+		p.w.callsAfterErr++
+	}
+	return nil
 }
 
 type plainWriter struct{ w *faultWriter }
@@ -178,6 +201,9 @@ func RunIO(p *bm.Policy, entry string, input []byte, rs ReaderScript, ws WriterS
 		var w io.Writer = stringWriter{fw}
 		if ws.Kind == "plain" {
 			w = plainWriter{fw}
+		}
+		if ws.Flusher {
+			w = flushWriter{fw}
 		}
 		res.Err = p.SanitizeReaderToWriter(newScriptReader(input, rs), w)
 		res.Out = fw.accepted.Bytes()
@@ -324,13 +350,23 @@ func checkWriteFaults(res *RunResult, recipe Recipe, model *AP, real *bm.Policy,
 			for _, kp := range []struct {
 				kind    string
 				partial bool
-			}{{"string", false}, {"plain", false}, {"string", true}, {"plain", true}} {
+				errKind string
+				flusher bool
+			}{{"string", false, "", false}, {"plain", false, "", false}, {"string", true, "", false}, {"plain", true, "", false},
+				{"string", false, "eof", false}, {"plain", false, "ueof", false}, {"plain", false, "", true}, {"plain", false, "eof", true}} {
 				kind := kp.kind
-				r := RunIO(real, "SanitizeReaderToWriter", input, ReaderScript{FailAt: -1}, WriterScript{Kind: kind, FailAt: k, Mode: mode, Partial: kp.partial})
+				r := RunIO(real, "SanitizeReaderToWriter", input, ReaderScript{FailAt: -1},
+					WriterScript{Kind: kind, FailAt: k, Mode: mode, Partial: kp.partial, ErrKind: kp.errKind, Flusher: kp.flusher})
 				res.Execs++
 				what := fmt.Sprintf("write %d of %d fails (%s, %s writer) on %q", k, n, mode, kind, input)
 				if kp.partial {
 					what = fmt.Sprintf("write %d of %d accepts half of its bytes and fails (%s, %s writer) on %q", k, n, mode, kind, input)
+				}
+				if kp.errKind != "" {
+					what += " [the write error is " + map[string]string{"eof": "io.EOF", "ueof": "io.ErrUnexpectedEOF"}[kp.errKind] + "]"
+				}
+				if kp.flusher {
+					what += " [destination with a Flush method]"
 				}
 				if r.Err == nil {
 					res.addViolation(Finding{"C16", "write-error-lost", what + ": SanitizeReaderToWriter returned nil"}, x, seen)
@@ -571,6 +607,23 @@ func cmdCLICheck(args []string) int {
 			[]byte(`<html><head><title>t</title><style type="text/css">p{}</style></head><body><font color="red" style="x">f</font></body></html>`)}
 		for _, v := range xssVectors {
 			inputs = append(inputs, []byte(v))
+		}
+		// the tool's own value patterns: valid values and near misses (a valid value with something in front, behind, doubled)
+		for _, c := range recipe {
+			if c.M != "AllowAttrs" || !strings.HasPrefix(c.Match, "re:") {
+				continue
+			}
+			var sb strings.Builder
+			for _, el := range c.Els {
+				for _, k := range c.Attrs {
+					for _, v := range []string{"red", "#fff", "rebeccapurple", "black", "submit", "12", "text/css", "0"} {
+						for _, w := range []string{v, v + "ish", "x" + v, v + v, v + " ", " " + v, strings.ToUpper(v), v + "\n", v + "5678"} {
+							fmt.Fprintf(&sb, "<%s %s=\"%s\">t</%s>\n", el, k, w, el)
+						}
+					}
+				}
+			}
+			inputs = append(inputs, []byte(sb.String()))
 		}
 		for k := 0; k < *n; k++ {
 			_, b := GenDoc(rng, model, []int{0, 1, 3, 4, 5, 6, 7, 8}[rng.Intn(8)])
